@@ -294,7 +294,7 @@ pub fn execute(sc: &Scenario, env: &Env) -> (Outcome, RunStats) {
                 world.close();
                 let what = if !consistent { "bundle_disagrees_with_decision" } else { "compile_differs_from_model" };
                 let stale = c04::stale_wellformed_sidecars(&image, &truth1, &thread);
-                let why = if stale.is_empty() { String::new() } else { ":stale_wellformed_sidecar".to_string() };
+                let why = if stale.is_empty() { String::new() } else { format!(":stale_wellformed_sidecar[{}]", stale.join(",")) };
                 return fin(
                     Outcome::Violation(Violation {
                         class: what.into(),
